@@ -159,14 +159,17 @@ def check(fs, want_model=False, strings_fallback=True, timeout_ms=None):
         out = ('unknown', None, 'z3')
         if strings_fallback and _has_strings(fs):
             v, rest = _cvc5(fs, want_model)
+            be = 'cvc5'
             if v == 'unknown' and want_model:
-                # finite-model finding for strings: only ever answers sat (a counter-model), which is replayed natively
+                # finite-model finding for strings: only ever answers sat (a counter-model), which is replayed natively.
+                # Its answer is labelled: a refutation that rests on the bounded model finder alone and does not fail on the
+                # real code is reported as undecided, never as a violation (run.py)
                 v2, rest2 = _cvc5(fs, want_model, fmf=True)
                 if v2 == 'sat':
-                    v, rest = v2, rest2
+                    v, rest, be = v2, rest2, 'cvc5-fmf'
             if v != 'unknown':
                 stats['cvc5_decided'] += 1
-                out = (v, rest if v == 'sat' else None, 'cvc5')
+                out = (v, rest if v == 'sat' else None, be)
         if out[0] == 'unknown' and strings_fallback:
             # verdicts must not flip with machine load or solver seed: before giving up, z3 again with other
             # seeds and a growing budget (a verdict of either polarity from any attempt is a real verdict)
